@@ -22,13 +22,17 @@ Definition geom_ok (c : cfgR) (g : list boundR) : Prop := c_use_grids c = true -
 Definition adm (c : cfgR) (g0 : list boundR) (x : list valueR) : Prop :=
   c_use_grids c = true -> All3 (fun v b xv => adm_var v b (scR xv)) (c_vars c) g0 x.
 
-(* restart with rebinGrids and new boundaries g' (only with grids): the state was written with keepHills, the new
-   grids are well formed, and every hill deposited so far is at least min_buffer bins inside their expandable
-   edges (as expandBoundaries would have kept them; vacuous when no variable has expandBoundaries) *)
-Definition rebin_ok (c : cfgR) (g' : list boundR) (hills : list hillR) : Prop :=
+(* restart with rebinGrids and new boundaries g' (only with grids): the new grids are well formed and
+   - either the state was written with keepHills (the grids are recomputed from the hills) and every hill deposited
+     so far is at least min_buffer bins inside the expandable edges of the new grids (as expandBoundaries would have
+     kept them; vacuous when no variable has expandBoundaries),
+   - or keepHills is off (the old grids are mapped onto the new ones) and the new grids are the current ones
+     extended by whole bins along expandBoundaries variables beyond non-hard boundaries *)
+Definition rebin_ok (c : cfgR) (g' : list boundR) (s : sstate) : Prop :=
   c_use_grids c = true ->
-  c_keep c = true /\ All2 bound_ok (c_vars c) g' /\
-  forall h, In h hills -> All3 (clear_var c) (c_vars c) g' (h_c h).
+  All2 bound_ok (c_vars c) g' /\
+  ((c_keep c = true /\ forall h, In h (s_all s) -> All3 (clear_var c) (c_vars c) g' (h_c h)) \/
+   (c_keep c = false /\ All3 (fun v b b' => gstep v b b') (c_vars c) (s_geom s) g')).
 
 (* the base geometry (boundaries of the configuration) after an event *)
 Definition next_base (c : cfgR) (g0 : list boundR) (e : eventR) : list boundR :=
@@ -43,7 +47,8 @@ Fixpoint hist_ok (c : cfgR) (g0 : list boundR) (s : sstate) (hist : list eventR)
       | EStep i => adm c g0 (i_x i)
       | ESave => True
       | ERestart None => True
-      | ERestart (Some g') => rebin_ok c g' (s_all s)
+      | ERestart (Some g') => rebin_ok c g' s
+      | EReload => True
       end /\ hist_ok c (next_base c g0 e) (spec_event c s e) r
   end.
 
@@ -55,7 +60,7 @@ Lemma scR_nth (l : valueR) : scR l = nth 0 l 0.
 Proof. destruct l; reflexivity. Qed.
 
 Lemma vzero_nth (v : varR) j : nth j (vzero Rops v) 0 = 0.
-Proof. unfold vzero. destruct (v_kind v); destruct j as [|[|[|[|j]]]]; reflexivity. Qed.
+Proof. unfold vzero. destruct (v_kind v); destruct j as [|[|[|[|[|j]]]]]; reflexivity. Qed.
 
 Lemma fzero_nth (vs : list varR) k j : nth j (fzero Rops vs k) 0 = 0.
 Proof. unfold fzero. destruct (nth_error vs k); [apply vzero_nth|destruct j; reflexivity]. Qed.
@@ -268,6 +273,28 @@ Section Refine.
       + intros v Hin. apply margin_covers; [exact Hsig|exact Hvars|exact Hin].
   Qed.
 
+  Lemma eb_scale_R i : eb_scale Rops c i = eb_factor c i.
+  Proof.
+    unfold eb_scale, eb_factor. destruct (c_eb c); [|reflexivity]. cbn [nmul ndiv nadd nsub n1 nofZ Rops].
+    destruct (i_it i <? c_eb_equil c)%Z; cbv zeta; rewrite ?Rmult_1_l; reflexivity.
+  Qed.
+
+  (* the weight of the hill added by update_bias *)
+  Lemma deposit_weight m s i : Inv m s -> adm c g0 (i_x i) ->
+    nmul Rops (c_weight c)
+      (if c_wt c
+       then nmul Rops (eb_scale Rops c i)
+              (nexp Rops (ndiv Rops (nmul Rops (nneg Rops (n1 Rops)) (wt_energy_here Rops c m (i_x i)))
+                                    (nmul Rops (c_bias_temp c) (c_kb c))))
+       else eb_scale Rops c i)
+    = spec_height c s i.
+  Proof.
+    intros HI Ha. unfold spec_height, wt_energy_here. rewrite eb_scale_R. destruct (c_wt c).
+    - rewrite (energy_spec m s (i_x i) HI Ha). cbn [nmul n1 nexp ndiv nneg Rops].
+      f_equal. f_equal. f_equal. unfold Rdiv. ring.
+    - cbn [nmul Rops]. ring.
+  Qed.
+
   Lemma deposit_inv m s i : Inv m s -> adm c g0 (i_x i) ->
     (c_use_grids c = true -> All3 (fun v b' xv => buffer_ok c v b' (scR xv)) vs (s_geom s) (i_x i)) ->
     Inv (update_bias Rops c m i) (spec_dep c s i).
@@ -275,13 +302,7 @@ Section Refine.
     intros HI Ha Hbuf. pose proof HI as HI0. destruct HI as [Hnew Hold Hsub Hgeom Hgrel He Hg Hoo Hon Hng Hcl].
     unfold update_bias, spec_dep. rewrite eligible_deposit.
     destruct (eligible c i) eqn:El; [|exact HI0].
-    assert (Hw : nmul Rops (c_weight c) (if c_wt c then wt_scale Rops c (wt_energy_here Rops c m (i_x i)) else n1 Rops)
-                 = spec_height c s (i_x i)).
-    { unfold spec_height, wt_energy_here. destruct (c_wt c).
-      - rewrite (energy_spec m s (i_x i) HI0 Ha). unfold wt_scale. cbn [nmul n1 nexp ndiv nneg Rops].
-        f_equal. rewrite Rmult_1_l. f_equal. unfold Rdiv. ring.
-      - cbn [nmul n1 Rops]. ring. }
-    rewrite Hw. set (h := mkHill (i_it i) (spec_height c s (i_x i)) (i_x i)).
+    rewrite (deposit_weight m s i HI0 Ha). set (h := mkHill (i_it i) (spec_height c s i) (i_x i)).
     constructor; cbn [st_new st_old st_e st_g st_geom st_off_old st_off_new s_tab s_pend s_geom s_all].
     - rewrite Hnew. reflexivity.
     - exact Hold.
@@ -425,15 +446,32 @@ Section Refine.
     intros HI. unfold restart_state, spec_restart. apply read_inv; [apply tabulate_inv; exact HI|apply tabulate_pend].
   Qed.
 
+  Lemma reload_inv m s : Inv m s -> Inv (reload_state Rops c m) (spec_tabulate c s).
+  Proof.
+    intros HI. pose proof (restart_inv m s HI) as H. unfold restart_state, spec_restart in H.
+    destruct H as [Hnew Hold Hsub Hgeom Hgrel He Hg Hoo Hon Hng Hcl].
+    unfold reload_state. constructor; cbn [st_new st_old st_e st_g st_geom st_off_old st_off_new]; assumption.
+  Qed.
+
+  (* without keepHills the hills listed after read_state_data are hills near the edges: the others vanish off the grid *)
+  Lemma read_old_far m s : Inv m s -> c_use_grids c = true -> c_keep c = false -> s_pend s = [] ->
+    Dropped (Far (s_geom s)) (s_tab s) (st_old (read_state Rops c m)).
+  Proof.
+    intros HI G Ek Hp. destruct HI as [Hnew Hold Hsub Hgeom Hgrel He Hg Hoo Hon Hng Hcl].
+    unfold read_state, state_hills. rewrite G, Ek. cbn [negb orb st_old].
+    specialize (Hon G). rewrite Hp in Hon. rewrite (Dropped_nil _ _ Hon), app_nil_r. apply Hoo. exact G.
+  Qed.
+
   Lemma event_inv m s e : Inv m s ->
     match e with EStep i => adm c g0 (i_x i) | ERestart (Some _) => False | _ => True end ->
     Inv (apply_event Rops c m e) (spec_event c s e).
   Proof.
-    intros HI Ha. destruct e as [i| |[g'|]]; cbn [apply_event spec_event].
+    intros HI Ha. destruct e as [i| |[g'|]|]; cbn [apply_event spec_event].
     - apply step_inv; assumption.
     - apply tabulate_inv; assumption.
     - contradiction.
     - apply restart_inv; assumption.
+    - apply reload_inv; assumption.
   Qed.
 End Refine.
 
@@ -443,54 +481,94 @@ Lemma s_all_save c s : s_all (spec_tabulate c s) = s_all s.
 Proof. unfold spec_tabulate, s_all. destruct (c_use_grids c); cbn [s_tab s_pend]; rewrite ?app_nil_r; reflexivity. Qed.
 
 Lemma rebin_inv c g0 g' m s : cfg_ok c -> geom_ok c g0 ->
-  Inv c g0 m s -> rebin_ok c g' (s_all s) ->
+  Inv c g0 m s -> rebin_ok c g' s ->
   Inv c (next_base c g0 (ERestart (Some g'))) (restart_state Rops c m (Some g')) (spec_restart c s (Some g')).
 Proof.
   intros Hok Hg0 HI Hr. pose proof (restart_inv c Hok g0 Hg0 m s HI) as H1.
+  pose proof (tabulate_inv c Hok g0 Hg0 m s HI) as Hsave.
   unfold restart_state, spec_restart in *. cbn [next_base].
   set (m1 := read_state Rops c (save_state Rops c m)) in *. set (s1 := spec_tabulate c s) in *.
   unfold rebin_state. destruct (c_use_grids c) eqn:G; [|exact H1].
-  destruct (Hr G) as (Ek & Hb' & Hcl'). rewrite Ek. cbn [andb].
+  destruct (Hr G) as (Hb' & Hcase).
   assert (Hp1 : s_pend s1 = []) by (unfold s1; apply tabulate_pend; exact G).
+  assert (Hg1 : s_geom s1 = s_geom s) by (unfold s1, spec_tabulate; rewrite G; reflexivity).
+  pose proof (read_old_far c g0 (save_state Rops c m) s1 Hsave G) as Hfar1. fold m1 in Hfar1.
   destruct H1 as [Hnew Hold Hsub Hgeom Hgrel He Hg Hoo Hon Hng Hcl].
   pose proof Hok as (Hvars & Hsig & Hgv0). destruct (Hgv0 G) as [_ Hgv].
   assert (Hlen' : length g' = length (c_vars c)) by (symmetry; apply (All2_length _ _ _ Hb')).
-  assert (Hclear1 : forall h, In h (s_tab s1) -> All3 (clear_var c) (c_vars c) g' (h_c h)).
-  { intros h Hin. apply Hcl'. rewrite <- (s_all_save c s). fold s1. unfold s_all. apply in_or_app. left. exact Hin. }
-  constructor; cbn [st_new st_old st_e st_g st_geom st_off_old st_off_new s_tab s_pend s_geom].
-  - symmetry. exact Hp1.
-  - intros _. apply (Hold Ek).
-  - rewrite (Hold Ek). apply Dropped_refl.
-  - reflexivity.
-  - intros _. apply All3_refl_gstep. exact Hlen'.
-  - intros ix Hix. rewrite (Hold Ek). destruct (s_tab s1) as [|h0 t0] eqn:Et.
-    + rewrite Esum_nil.
-      destruct (index_ok (gsizes (st_geom m1)) (remap_ix Rops (c_vars c) g' (st_geom m1) ix)) eqn:Eo; [|reflexivity].
-      rewrite Hgeom in Eo. rewrite Hgeom, (He _ Eo), ?Et, Esum_nil. reflexivity.
-    + rewrite hills_energy_R. cbn [nadd n0 Rops]. lra.
-  - intros ix k Hix Hk. rewrite (Hold Ek). destruct (s_tab s1) as [|h0 t0] eqn:Et.
-    + rewrite Fsum_nil.
-      destruct (index_ok (gsizes (st_geom m1)) (remap_ix Rops (c_vars c) g' (st_geom m1) ix)) eqn:Eo; [|cbn; lra].
-      rewrite Hgeom in Eo. rewrite Hgeom, (Hg _ _ Eo Hk), ?Et, Fsum_nil. lra.
-    + rewrite sc_R, scR_nth, hills_force_R by (rewrite fzero_scalar by assumption; reflexivity).
-      cbn [nsub n0 nth Rops]. lra.
-  - intros _. rewrite (Hold Ek). destruct (s_tab s1) as [|h0 t0] eqn:Et.
-    + rewrite (Dropped_nil _ _ (Hoo G)). apply D_nil.
-    + apply Dropped_filter. intros h Hin Hn. destruct h as [it w x].
-      unfold near_hill in Hn. cbn [h_c] in Hn.
-      apply (not_near_far c Hok g' x G Hb' Hgv Hlen'); [|exact Hn].
-      destruct (All3_length _ _ _ _ (Hclear1 _ Hin)) as [_ Hl]. symmetry. exact Hl.
-  - intros _. rewrite Hp1. apply D_nil.
-  - intros G'. rewrite G in G'. discriminate G'.
-  - intros _ h Hin. unfold s_all in Hin. cbn [s_tab s_pend] in Hin. rewrite Hp1, app_nil_r in Hin. apply Hclear1. exact Hin.
+  destruct Hcase as [(Ek & Hcl')|(Ek & Hs)].
+  - (* from the kept hills *)
+    rewrite Ek. cbn [andb].
+    assert (Hclear1 : forall h, In h (s_tab s1) -> All3 (clear_var c) (c_vars c) g' (h_c h)).
+    { intros h Hin. apply Hcl'. rewrite <- (s_all_save c s). fold s1. unfold s_all. apply in_or_app. left. exact Hin. }
+    constructor; cbn [st_new st_old st_e st_g st_geom st_off_old st_off_new s_tab s_pend s_geom].
+    + symmetry. exact Hp1.
+    + intros _. apply (Hold Ek).
+    + rewrite (Hold Ek). apply Dropped_refl.
+    + reflexivity.
+    + intros _. apply All3_refl_gstep. exact Hlen'.
+    + intros ix Hix. rewrite (Hold Ek). destruct (s_tab s1) as [|h0 t0] eqn:Et.
+      * rewrite Esum_nil.
+        destruct (index_ok (gsizes (st_geom m1)) (remap_ix Rops (c_vars c) g' (st_geom m1) ix)) eqn:Eo; [|reflexivity].
+        rewrite Hgeom in Eo. rewrite Hgeom, (He _ Eo), ?Et, Esum_nil. reflexivity.
+      * rewrite hills_energy_R. cbn [nadd n0 Rops]. lra.
+    + intros ix k Hix Hk. rewrite (Hold Ek). destruct (s_tab s1) as [|h0 t0] eqn:Et.
+      * rewrite Fsum_nil.
+        destruct (index_ok (gsizes (st_geom m1)) (remap_ix Rops (c_vars c) g' (st_geom m1) ix)) eqn:Eo; [|cbn; lra].
+        rewrite Hgeom in Eo. rewrite Hgeom, (Hg _ _ Eo Hk), ?Et, Fsum_nil. lra.
+      * rewrite sc_R, scR_nth, hills_force_R by (rewrite fzero_scalar by assumption; reflexivity).
+        cbn [nsub n0 nth Rops]. lra.
+    + intros _. rewrite (Hold Ek). destruct (s_tab s1) as [|h0 t0] eqn:Et.
+      * rewrite (Dropped_nil _ _ (Hoo G)). apply D_nil.
+      * apply Dropped_filter. intros h Hin Hn. destruct h as [it w x].
+        unfold near_hill in Hn. cbn [h_c] in Hn.
+        apply (not_near_far c Hok g' x G Hb' Hgv Hlen'); [|exact Hn].
+        destruct (All3_length _ _ _ _ (Hclear1 _ Hin)) as [_ Hl]. symmetry. exact Hl.
+    + intros _. rewrite Hp1. apply D_nil.
+    + intros G'. rewrite G in G'. discriminate G'.
+    + intros _ h Hin. unfold s_all in Hin. cbn [s_tab s_pend] in Hin. rewrite Hp1, app_nil_r in Hin. apply Hclear1. exact Hin.
+  - (* from the grids of the state: map_grid onto an extension of the current grids *)
+    rewrite Ek. cbn [andb]. rewrite <- Hg1 in Hs.
+    destruct (geom_facts c Hok g0 Hg0 s1 G (Hgrel G)) as (Hb & _ & Hlen).
+    specialize (Hfar1 Ek Hp1).
+    assert (Hfar' : forall h, Far c (s_geom s1) h -> Far c g' h) by (intros h; apply (Far_step c Hok _ _ h Hgv Hb Hs)).
+    assert (Hcl1 : forall h, In h (s_tab s1) -> Clear c (s_geom s1) h).
+    { intros h Hin. apply (Hcl G). unfold s_all. apply in_or_app. left. exact Hin. }
+    constructor; cbn [st_new st_old st_e st_g st_geom st_off_old st_off_new s_tab s_pend s_geom].
+    + symmetry. exact Hp1.
+    + intros Ek'. rewrite Ek in Ek'. discriminate Ek'.
+    + exact Hsub.
+    + reflexivity.
+    + intros _. apply All3_refl_gstep. exact Hlen'.
+    + intros ix Hix. rewrite Hgeom.
+      destruct (remap_lemma c (c_vars c) (s_geom s1) g' ix Hvars Hgv Hb Hs (mb_covers c Hok) Hix) as [R1 R2].
+      destruct (index_ok (gsizes (s_geom s1)) (remap_ix Rops (c_vars c) g' (s_geom s1) ix)) eqn:Eo.
+      * rewrite (He _ Eo), (R1 eq_refl). reflexivity.
+      * symmetry. apply Esum_zero. intros h Hin. apply K_far. apply (R2 eq_refl). apply Hcl1. exact Hin.
+    + intros ix k Hix Hk. rewrite Hgeom.
+      destruct (remap_lemma c (c_vars c) (s_geom s1) g' ix Hvars Hgv Hb Hs (mb_covers c Hok) Hix) as [R1 R2].
+      destruct (index_ok (gsizes (s_geom s1)) (remap_ix Rops (c_vars c) g' (s_geom s1) ix)) eqn:Eo.
+      * rewrite (Hg _ _ Eo Hk), (R1 eq_refl). reflexivity.
+      * rewrite Fsum_zero; [cbn; lra|]. intros h Hin. apply Fk_far. apply (R2 eq_refl). apply Hcl1. exact Hin.
+    + intros _. destruct (st_old m1) as [|h0 t0] eqn:Eh.
+      * apply (Dropped_mono (Far c (s_geom s1))); [exact Hfar'|apply Hoo; exact G].
+      * apply (Dropped_trans _ _ _ (Dropped_mono _ _ _ _ Hfar' Hfar1)).
+        apply Dropped_filter. intros h Hin Hn. destruct h as [it w x].
+        unfold near_hill in Hn. cbn [h_c] in Hn.
+        apply (not_near_far c Hok g' x G Hb' Hgv Hlen'); [|exact Hn].
+        apply (clear_length c (s_geom s1) (mkHill it w x)). apply Hcl1.
+        apply (Dropped_In _ _ _ Hfar1). exact Hin.
+    + intros _. rewrite Hp1. apply D_nil.
+    + intros G'. rewrite G in G'. discriminate G'.
+    + intros _ h Hin. apply (All3_clear_gstep c (c_vars c) (s_geom s1) g' (h_c h) Hvars Hs). apply (Hcl G h Hin).
 Qed.
 
 Lemma next_base_ok c g0 e s : geom_ok c g0 ->
-  match e with ERestart (Some g') => rebin_ok c g' (s_all s) | _ => True end ->
+  match e with ERestart (Some g') => rebin_ok c g' s | _ => True end ->
   geom_ok c (next_base c g0 e).
 Proof.
-  intros Hg0 He G. destruct e as [i| |[g'|]]; cbn [next_base]; try (apply Hg0; exact G).
-  rewrite G. destruct (He G) as (_ & Hb & _). exact Hb.
+  intros Hg0 He G. destruct e as [i| |[g'|]|]; cbn [next_base]; try (apply Hg0; exact G).
+  rewrite G. destruct (He G) as (Hb & _). exact Hb.
 Qed.
 
 Lemma run_inv_gen c : cfg_ok c -> forall hist g0 m s,
@@ -501,12 +579,13 @@ Proof.
   intros Hok. induction hist as [|e hist IH]; intros g0 m s Hg0 HI HH; cbn [fold_left].
   - split; assumption.
   - cbn [hist_ok] in HH. destruct HH as [He Hr]. apply IH.
-    + apply (next_base_ok c g0 e s Hg0). destruct e as [i| |[g'|]]; try exact I. exact He.
-    + destruct e as [i| |[g'|]].
+    + apply (next_base_ok c g0 e s Hg0). destruct e as [i| |[g'|]|]; try exact I. exact He.
+    + destruct e as [i| |[g'|]|].
       * cbn [next_base]. apply (event_inv c Hok g0 Hg0 m s (EStep i) HI He).
       * cbn [next_base]. apply (event_inv c Hok g0 Hg0 m s ESave HI I).
       * apply (rebin_inv c g0 g' m s Hok Hg0 HI He).
       * cbn [next_base]. apply (event_inv c Hok g0 Hg0 m s (ERestart None) HI I).
+      * cbn [next_base]. apply (event_inv c Hok g0 Hg0 m s EReload HI I).
     + exact Hr.
 Qed.
 
@@ -619,7 +698,7 @@ Qed.
 Lemma s_all_step c s i :
   s_all (spec_step c s i) =
   s_all s ++ (if eligible c i
-              then [mkHill (i_it i) (spec_height c (spec_expand c s (i_x i)) (i_x i)) (i_x i)] else []).
+              then [mkHill (i_it i) (spec_height c (spec_expand c s (i_x i)) i) (i_x i)] else []).
 Proof.
   unfold spec_step, spec_proj, spec_tabulate, spec_dep, s_all.
   destruct (eligible c i); destruct (i_it i mod c_gfreq c =? 0)%Z; destruct (c_use_grids c);
@@ -630,7 +709,7 @@ Lemma deposited_snoc c hist i :
   s_all (spec_run c (hist ++ [EStep i])) =
   s_all (spec_run c hist) ++
   (if eligible c i
-   then [mkHill (i_it i) (spec_height c (spec_expand c (spec_run c hist) (i_x i)) (i_x i)) (i_x i)] else []).
+   then [mkHill (i_it i) (spec_height c (spec_expand c (spec_run c hist) (i_x i)) i) (i_x i)] else []).
 Proof. rewrite spec_run_snoc. apply s_all_step. Qed.
 
 Lemma deposited_save c hist : s_all (spec_run c (hist ++ [ESave])) = s_all (spec_run c hist).
@@ -651,22 +730,25 @@ Fixpoint steps_of (hist : list eventR) : list inR :=
   | EStep i :: r => i :: steps_of r
   | ESave :: r => steps_of r
   | ERestart _ :: r => steps_of r
+  | EReload :: r => steps_of r
   end.
 
 (* without well-tempering: the deposited hills are one hill of height hillWeight per eligible step *)
-Lemma deposited_plain c hist : c_wt c = false ->
+Lemma deposited_plain c hist : c_wt c = false -> c_eb c = false ->
   s_all (spec_run c hist) = map (fun i => mkHill (i_it i) (c_weight c) (i_x i)) (filter (eligible c) (steps_of hist)).
 Proof.
-  intros W. unfold spec_run.
+  intros W B. unfold spec_run.
   assert (Hgen : forall s, s_all (fold_left (spec_event c) hist s) =
             s_all s ++ map (fun i => mkHill (i_it i) (c_weight c) (i_x i)) (filter (eligible c) (steps_of hist))).
   { induction hist as [|e hist IH]; intros s; cbn [fold_left].
     - cbn. rewrite app_nil_r. reflexivity.
-    - destruct e as [i| |r]; cbn [spec_event steps_of filter].
-      + rewrite IH, s_all_step. unfold spec_height. rewrite W.
+    - destruct e as [i| |r|]; cbn [spec_event steps_of filter].
+      + rewrite IH, s_all_step. unfold spec_height, eb_factor. rewrite W, B.
+        replace (c_weight c * (1 * 1)) with (c_weight c) by ring.
         destruct (eligible c i); cbn [map]; rewrite <- app_assoc; reflexivity.
       + rewrite IH, s_all_save. reflexivity.
-      + rewrite IH, s_all_restart. reflexivity. }
+      + rewrite IH, s_all_restart. reflexivity.
+      + rewrite IH, s_all_save. reflexivity. }
   rewrite Hgen. reflexivity.
 Qed.
 
@@ -675,7 +757,7 @@ Lemma tabulated_snoc c hist i : c_use_grids c = true ->
   s_pend (spec_run c (hist ++ [EStep i])) = (if (i_it i mod c_gfreq c =? 0)%Z then [] else
      s_pend (spec_run c hist) ++
      (if eligible c i
-      then [mkHill (i_it i) (spec_height c (spec_expand c (spec_run c hist) (i_x i)) (i_x i)) (i_x i)] else [])).
+      then [mkHill (i_it i) (spec_height c (spec_expand c (spec_run c hist) (i_x i)) i) (i_x i)] else [])).
 Proof.
   intros G. rewrite spec_run_snoc. cbn [spec_event]. unfold spec_step, spec_proj, spec_tabulate, spec_dep. rewrite G.
   destruct (i_it i mod c_gfreq c =? 0)%Z; [reflexivity|].
@@ -703,7 +785,7 @@ Qed.
 (* keepHills does not occur in the specification *)
 Definition set_keep (c : cfgR) (b : bool) : cfgR :=
   mkCfg (c_vars c) (c_geom0 c) (c_weight c) (c_hill_width c) (c_freq c) (c_gfreq c) (c_use_grids c) b
-        (c_wt c) (c_bias_temp c) (c_kb c) (c_step_zero c).
+        (c_wt c) (c_bias_temp c) (c_kb c) (c_step_zero c) (c_eb c) (c_eb_equil c) (c_eb_target c).
 
 Lemma expand_geom_keep c b us : forall g x,
   expand_geom Rops (set_keep c b) us g x = expand_geom Rops c us g x.
@@ -720,7 +802,7 @@ Qed.
 
 Lemma spec_event_keep c b s e : spec_event (set_keep c b) s e = spec_event c s e.
 Proof.
-  destruct e as [i| |r]; cbn [spec_event]; [|reflexivity|reflexivity].
+  destruct e as [i| |r|]; cbn [spec_event]; [|reflexivity|reflexivity|reflexivity].
   unfold spec_step, spec_expand. rewrite next_geom_keep. reflexivity.
 Qed.
 
@@ -754,5 +836,83 @@ Proof.
   unfold history_ok. generalize (mkS [] [] (c_geom0 c)).
   induction hist as [|e hist IH]; intros s HF; cbn [hist_ok]; [exact I|].
   inversion HF as [|e' l' He Hl]; subst.
-  destruct e as [i| |[g'|]]; cbn [plain_event next_base] in *; try contradiction; (split; [assumption|apply IH; exact Hl]).
+  destruct e as [i| |[g'|]|]; cbn [plain_event next_base] in *; try contradiction; (split; [assumption|apply IH; exact Hl]).
+Qed.
+
+(* ================================================================== writeHillsTrajectory *)
+
+(* the hills written to the hills trajectory since the instance was created: one record per deposited hill, in
+   order, with the step, height and centre of the deposition *)
+Fixpoint traj_run (c : cfgR) (s : sstate) (tr : list hillR) (hist : list eventR) : list hillR :=
+  match hist with
+  | [] => tr
+  | e :: r =>
+      traj_run c (spec_event c s e)
+        (match e with
+         | EStep i => tr ++ (if eligible c i
+                             then [mkHill (i_it i) (spec_height c (spec_expand c s (i_x i)) i) (i_x i)] else [])
+         | ESave => tr
+         | ERestart _ => []
+         | EReload => tr
+         end) r
+  end.
+Definition spec_traj (c : cfgR) (hist : list eventR) : list hillR := traj_run c (mkS [] [] (c_geom0 c)) [] hist.
+
+Lemma traj_event c g0 m s e : cfg_ok c -> geom_ok c g0 -> Inv c g0 m s ->
+  match e with EStep i => adm c g0 (i_x i) | _ => True end ->
+  st_traj (apply_event Rops c m e) =
+  match e with
+  | EStep i => st_traj m ++ (if eligible c i
+                             then [mkHill (i_it i) (spec_height c (spec_expand c s (i_x i)) i) (i_x i)] else [])
+  | ESave => st_traj m
+  | ERestart _ => []
+  | EReload => st_traj m
+  end.
+Proof.
+  intros Hok Hg0 HI Ha. destruct e as [i| |r|]; cbn [apply_event].
+  - unfold step_state.
+    pose proof (expand_inv c Hok g0 Hg0 m s (i_x i) HI Ha) as H1.
+    set (m1 := update_grid_params Rops c m (i_x i)) in *.
+    assert (Ht1 : st_traj m1 = st_traj m).
+    { unfold m1, update_grid_params. destruct (c_use_grids c && existsb (@v_expand R) (c_vars c)); [|reflexivity].
+      destruct (geom_changed (st_geom m) (expand_geom Rops c (c_vars c) (st_geom m) (i_x i))); reflexivity. }
+    assert (Ht2 : st_traj (update_bias Rops c m1 i) =
+                  st_traj m ++ (if eligible c i
+                                then [mkHill (i_it i) (spec_height c (spec_expand c s (i_x i)) i) (i_x i)] else [])).
+    { unfold update_bias. rewrite (eligible_deposit c i). destruct (eligible c i).
+      - cbn [st_traj]. rewrite (deposit_weight c Hok g0 Hg0 m1 _ i H1 Ha), Ht1. reflexivity.
+      - rewrite app_nil_r. exact Ht1. }
+    destruct (c_use_grids c); [|exact Ht2].
+    unfold update_grid_data. destruct (i_it i mod c_gfreq c =? 0)%Z; [|exact Ht2].
+    unfold project. cbn [st_traj]. exact Ht2.
+  - unfold save_state. destruct (c_use_grids c); reflexivity.
+  - unfold restart_state, read_state, rebin_state. destruct r as [g'|]; destruct (c_use_grids c); reflexivity.
+  - reflexivity.
+Qed.
+
+Lemma traj_gen c : cfg_ok c -> forall hist g0 m s tr, geom_ok c g0 -> Inv c g0 m s -> hist_ok c g0 s hist ->
+  st_traj m = tr -> st_traj (fold_left (apply_event Rops c) hist m) = traj_run c s tr hist.
+Proof.
+  intros Hok. induction hist as [|e hist IH]; intros g0 m s tr Hg0 HI HH Ht; cbn [fold_left traj_run]; [exact Ht|].
+  cbn [hist_ok] in HH. destruct HH as [He Hr].
+  assert (Hnb : geom_ok c (next_base c g0 e)).
+  { apply (next_base_ok c g0 e s Hg0). destruct e as [i| |[g'|]|]; try exact I. exact He. }
+  assert (HI' : Inv c (next_base c g0 e) (apply_event Rops c m e) (spec_event c s e)).
+  { destruct e as [i| |[g'|]|].
+    - cbn [next_base]. apply (event_inv c Hok g0 Hg0 m s (EStep i) HI He).
+    - cbn [next_base]. apply (event_inv c Hok g0 Hg0 m s ESave HI I).
+    - apply (rebin_inv c g0 g' m s Hok Hg0 HI He).
+    - cbn [next_base]. apply (event_inv c Hok g0 Hg0 m s (ERestart None) HI I).
+    - cbn [next_base]. apply (event_inv c Hok g0 Hg0 m s EReload HI I). }
+  apply (IH _ _ _ _ Hnb HI' Hr).
+  rewrite (traj_event c g0 m s e Hok Hg0 HI); [|destruct e as [i| |r|]; try exact I; exact He].
+  destruct e as [i| |r|]; rewrite ?Ht; reflexivity.
+Qed.
+
+Lemma trajectory_holds c hist : cfg_ok c -> history_ok c hist ->
+  st_traj (final_state Rops c hist) = spec_traj c hist.
+Proof.
+  intros Hok HH. unfold final_state, spec_traj.
+  apply (traj_gen c Hok hist (c_geom0 c)); [apply cfg_geom0_ok; exact Hok| |exact HH|reflexivity].
+  apply init_inv; [apply cfg_geom0_ok; exact Hok|reflexivity].
 Qed.
